@@ -75,7 +75,8 @@ def plan(prop, tier):
                 ("f32-guarantees", {"C01", "C02", "C03", "C04", "C05", "C06"}, "f32", "release",
                  [corpus("fan_f32.ndjson"), ops("f32", ALLF, 150 if q else 1200, 3, 100), ops("f32", "fan", 150 if q else 1500, 3, 100)])],
         "C11": [("chains", {"C11", "C03", "C02"}, "any", "release",
-                 [ops("chain", EXACT, 120 if q else 1000, 3, 90), ops("chain3", EXACT, 40 if q else 500, 2, 60)])],
+                 [ops("chain", EXACT, 120 if q else 1000, 3, 90), ops("chain3", EXACT, 40 if q else 500, 2, 60),
+                  ops("chain", "frames,cxabut,cxsub,frames,rect", 500 if q else 5000, 3, 90), ops("chain3", "frames,cxabut", 120 if q else 1200, 3, 70)])],
         "C12": [("purity", {"C12"}, "any", "release",
                  [ops("pure", ALLF, 60 if q else 500, 3, 120), ops("repr", EXACT, 20 if q else 100, 3, 90),
                   ops("history", "cx,cxmix,cxshift,aff-cx", 8 if q else 60, 4, 200)])],
@@ -173,6 +174,7 @@ def run(prop, tier, seed, t0):
     steps = plan(prop, tier)
     known = vlib.load_known()
     tot_gen = tot_dist = tot_sessions = 0
+    undecided_total = 0
     all_sessions = []
     fails_by_step = []
     per_step = []
@@ -184,6 +186,9 @@ def run(prop, tier, seed, t0):
         res = vlib.validate_ops(trace, laws, onlyf, wd, timeout=7200 if tier == "thorough" else 1500)
         log("[%s] step %s: %d sessions, laws=%s onlyF=%s profile=%s: %d states, %d law failures, TLC %.1fs" % (
             prop, label, len(sessions), ",".join(sorted(laws)), onlyf, profile, res["distinct"], len(res["lawfails"]), res["seconds"]))
+        if res["undecided"]:
+            log("UNDECIDED property=%s %d calls returned geometry outside the integer domain (a result vertex is no arrangement vertex of the inputs and its edges meet input edges in non-integral points): the region laws cannot be evaluated for them; `bin/check C04` reports the cause" % (prop, len(res["undecided"])))
+        undecided_total += len(res["undecided"])
         tot_gen += res["generated"]
         tot_dist += res["distinct"]
         failed_sids = {f[1] for f in res["lawfails"]}
@@ -209,11 +214,11 @@ def run(prop, tier, seed, t0):
         wd = os.path.join(vlib.OUT, prop, "big")
         os.makedirs(wd, exist_ok=True)
         if tier == "quick":
-            scs = [("bool:comb:int", 120000, 1024), ("bool:needles:int", 120000, 1024), ("bool:needles:diff", 100000, 1024), ("bool:comb_subject:diff", 20000, 8192),
+            scs = [("bool:comb:int", 120000, 1024), ("bool:needles:int", 120000, 1024), ("bool:needles:diff", 100000, 1024), ("bool:comb_subject:diff", 20000, 8192), ("bool:steps:union", 100000, 1024), ("bool:steps:xor", 60000, 1024),
                    ("bool:grid:union", 2500, 8192), ("bool:grid:xor", 2500, 2048), ("bool:stair:int", 40000, 8192), ("bool:stair:union", 20000, 2048)]
         else:
             scs = [("bool:comb:int", 500000, 8192), ("bool:comb:diff", 250000, 2048), ("bool:needles:int", 300000, 8192), ("bool:needles:diff", 150000, 2048),
-                   ("bool:comb_subject:diff", 200000, 8192), ("bool:comb:union", 100000, 8192), ("bool:grid:union", 40000, 8192), ("bool:grid:xor", 40000, 2048),
+                   ("bool:comb_subject:diff", 200000, 8192), ("bool:comb:union", 100000, 8192), ("bool:steps:union", 250000, 8192), ("bool:steps:diff", 250000, 2048), ("bool:grid:union", 40000, 8192), ("bool:grid:xor", 40000, 2048),
                    ("bool:grid:int", 90000, 8192), ("bool:stair:int", 1000000, 8192), ("bool:stair:union", 1000000, 2048), ("bool:stair:diff", 1000000, 8192)]
         path = os.path.join(wd, "stack.ndjson")
         checks_splay.scenario(scs, path)
@@ -240,7 +245,7 @@ def run(prop, tier, seed, t0):
         "samples": samples, "evaluations": calls, "distinct_nontrivial": nontrivial, "distinct_inputs": distinct,
         "rule": "a case is one real library call (operands, operation, trait pairing, float type) inside a recorded session; distinct = distinct canonical hash of operands+call shape; non-trivial = the sweep ran and processed more events than twice the number of input edges, i.e. at least one edge was split at an intersection, touch or overlap",
         "sessions_by_family": fams, "steps": per_step, "known_findings_hit": nknown,
-        "exhaustive": False, "large_scenarios": big_events,
+        "exhaustive": False, "large_scenarios": big_events, "undecided_calls": undecided_total,
         "layer_m": [{k: v for k, v in r.items() if k != "labels"} for r in layer_m],
         "layer_m_branch_labels": {k: v for r in layer_m for k, v in r["labels"].items()},
         "spec_drift": sum(r["drift"] for r in layer_m),
